@@ -174,6 +174,7 @@ class Body:
         self.kind = raw['kind']
         self.root = raw['root']
         self.parent = raw['parent']
+        self.orig_parent = raw.get('orig_parent')
         self.file = raw['file']
         self.line = raw['line']
         self.exp = raw['exp']
@@ -968,6 +969,7 @@ class Facts:
         self.inline_args = {}
         self.dropped_raw = {}
         self._dropped = {}
+        self._fnb = None
         self._views = {}
         ref = reference_fns()
         if ref is not None and not os.environ.get('AM_NO_INLINE'):
@@ -1068,6 +1070,10 @@ class Facts:
             raw['bodies'] = [self._norm_body(b, normalize, raws) for b in raw['bodies']]
             return raw
         raws = {b['path']: b for b in raw['bodies']}
+        import inline as _inl
+        # a new function that calls itself cannot be written in place: it stays a body of its own
+        recursive = {p for p in new if any(_inl.callee_path(bl['term']) == p for x in raw['bodies'] if x['path'] == p or x.get('root') == p for bl in x['blocks'])}
+        new = [p for p in new if p not in recursive]
         newset = set(new)
         log = []
         out = []
@@ -1094,20 +1100,32 @@ class Facts:
                 b = dict(b)
                 host = raws.get(used[b['root']])
                 if b.get('parent') == b['root']:
+                    b['orig_parent'] = b['parent']
                     b['parent'] = used[b['root']]       # lexically it now lives where the helper was written in place
                 b['root'] = host['root'] if host and host['kind'] == 'Closure' else used[b['root']]
             keep.append(b)
         raw = dict(raw)
         kraws = {b['path']: b for b in keep}
-        raw['bodies'] = [self._norm_body(b, normalize, kraws) for b in keep]
+        # (a model may introduce a direct call of a new helper -- `opt.map_or(false, Inner::poll)` -- so helpers are
+        # written in place once more after the models, using the helper bodies that were set aside)
+        allraws = dict(kraws)
+        allraws.update(self.dropped_raw)
+        raw['bodies'] = [self._norm_body(b, normalize, kraws, allraws, newset) for b in keep]
         self.inlined = sorted(used.items())
         return raw
 
     @staticmethod
-    def _norm_body(b, normalize, raws):
+    def _norm_body(b, normalize, raws, allraws=None, newset=None):
         if b['kind'] in ('Fn', 'AssocFn', 'Closure') and b['promoted'] is None and not os.environ.get('AM_NO_NORMALIZE'):
             b = copy.deepcopy(b)
             normalize.normalize(b, raws)
+            if newset:
+                import inline
+                n0 = len(b.get('inlined') or [])
+                b2 = inline.inline_into(b, allraws, lambda p: p in newset)
+                if len(b2.get('inlined') or []) > n0:
+                    normalize.normalize(b2, raws)
+                    b = b2
         return b
 
     def dropped(self, path):
@@ -1167,8 +1185,12 @@ class Facts:
         return out
 
     def fn_bodies(self):
-        return [b for b in self.bodies.values()
-                if b.kind in ('Fn', 'AssocFn', 'Closure') and b.promoted is None]
+        """every function / closure body to scan for sites; a closure that was written in place where it is used is
+        scanned there (with its real arguments and guards), not a second time on its own"""
+        if self._fnb is None:
+            self._fnb = [b for b in self.bodies.values()
+                         if b.kind in ('Fn', 'AssocFn', 'Closure') and b.promoted is None and not self.written_in_place(b)]
+        return self._fnb
 
     def all_calls(self):
         for b in self.fn_bodies():
